@@ -79,13 +79,16 @@ def alternative_or_next(
     """
     new_branch = chained_logic(AND, *conditions)
     current_node = SymbolicExpression._current_parent_()
-    if isinstance(current_node._parent_, (Alternative, Next)):
-        current_node = current_node._parent_
-    elif (
-        isinstance(current_node._parent_, ExceptIf)
-        and current_node is current_node._parent_.left
-    ):
-        current_node = current_node._parent_
+    # climb to the top of the chain the current node belongs to: over every alternative/next that was already
+    # added to it and over the refinements of the rule itself (where the node is the left operand)
+    while True:
+        parent = current_node._parent_
+        if isinstance(parent, (Alternative, Next)):
+            current_node = parent
+        elif isinstance(parent, ExceptIf) and current_node is parent.left:
+            current_node = parent
+        else:
+            break
     prev_parent = current_node._parent_
     current_node._parent_ = None
     if type_ == RDREdge.Alternative:
@@ -99,5 +102,9 @@ def alternative_or_next(
     new_branch._node_.weight = type_
     new_conditions_root._parent_ = prev_parent
     if isinstance(prev_parent, BinaryOperator):
-        prev_parent.right = new_conditions_root
+        # the chain is an operand of prev_parent: replace it on the side it was on
+        if prev_parent.right is current_node:
+            prev_parent.right = new_conditions_root
+        elif prev_parent.left is current_node:
+            prev_parent.left = new_conditions_root
     return new_conditions_root.right
